@@ -47,7 +47,7 @@ def Tree.WF (t : Tree K V) : Prop :=
 
 /-- operations that only read -/
 def Op.isRead : Op K V → Bool
-  | .get _ | .has _ | .iter _ _ _ | .getv _ _ | .gas => true
+  | .get _ | .has _ | .iter _ _ _ | .iterAll _ _ _ | .getv _ _ | .gas => true
   | _ => false
 
 /-- operations that write into the open session or block cache -/
@@ -112,5 +112,37 @@ def listed (c : Cfg K V) (s : St K V) (ks : List K) : List (K × Option V) :=
 def listedSess (c : Cfg K V) (s : St K V) (ks : List K) : List (K × Option V) :=
   (ks.filter (fun k => !s.deleted c k && (s.sess.bind (alookup k)).isSome)).map
     (fun k => (k, view c s k))
+
+/-! ### the keys an iteration visits (`State.IterateRangeAll`) -/
+
+/-- `k` lies in `[lo, hi)` (`none` = unbounded) in the byte order -/
+def inRange (c : Cfg K V) (lo hi : Option K) (k : K) : Bool :=
+  (match lo with | none => true | some l => !c.lt k l) &&
+  (match hi with | none => true | some h => c.lt k h)
+
+/-- every key some layer of the state holds: working tree, block cache, open session -/
+def St.allKeys (s : St K V) : List K :=
+  akeys s.tree.working ++ akeys s.cache ++ (match s.sess with | some o => akeys o | none => [])
+
+/-- ascending or descending -/
+def dir (asc : Bool) (ks : List K) : List K := if asc then ks else ks.reverse
+
+/-- "sorted in the direction `asc`" for the byte order `lt` (no later key is smaller / larger) -/
+def SortedDir (lt : K → K → Bool) (asc : Bool) (ks : List K) : Prop :=
+  ks.Pairwise (fun a b => if asc then lt b a = false else lt a b = false)
+
+/-- `lt` is a strict total order (as the byte order of keys is) -/
+structure StrictTotal (lt : K → K → Bool) : Prop where
+  irrefl : ∀ a, lt a a = false
+  trans : ∀ a b c, lt a b = true → lt b c = true → lt a c = true
+  total : ∀ a b, a ≠ b → lt a b = true ∨ lt b a = true
+
+/-- the visible keys of a range, in iteration order: what `IterateRangeAll` is to list -/
+def visKeys (c : Cfg K V) (s : St K V) (lo hi : Option K) (asc : Bool) : List K :=
+  (s.iterKeys c lo hi asc).filter (fun k => (view c s k).isSome)
+
+/-- no layer of the tree holds a key twice (true of every tree built by `Set` / `Delete`) -/
+def Tree.KeysNodup (t : Tree K V) : Prop :=
+  (akeys t.working).Nodup ∧ ∀ p ∈ t.versions, (akeys p.2).Nodup
 
 end OLP.KV
